@@ -431,6 +431,28 @@ fn position_ledgers(t: &VE) -> Vec<(&'static str, Vec<Entry>)> {
     ]
 }
 
+/// Declared display precisions (`commodity X` + `format 1,000.00 X`) of the second set of
+/// contexts: (commodity id, decimals).  No evaluation may round to them.
+const FORMAT_TABLES: [&[(usize, u32)]; 4] = [
+    &[(USD, 0), (EUR, 0), (AAPL, 0)],
+    &[(USD, 2), (EUR, 0)],
+    &[(USD, 0), (EUR, 3), (AAPL, 2)],
+    &[(USD, 1), (EUR, 1)],
+];
+/// which table the n-th case uses: whole units (where every fraction would show) most often
+const TABLE_ROTATION: [usize; 6] = [0, 1, 0, 2, 0, 3];
+
+fn format_entries(k: usize) -> Vec<Entry> {
+    FORMAT_TABLES[k].iter().map(|(c, dp)| Entry::Format(*c, *dp)).collect()
+}
+
+/// one processed ledger that declares the precisions of FORMAT_TABLES[k]
+struct FmtBase<'c> {
+    ledger: report::query::Ledger<'c>,
+    rctx: report::ReportContext<'c>,
+    path: PathBuf,
+}
+
 struct Ctx<'a> {
     sh: Shards,
     st: Stats,
@@ -438,10 +460,53 @@ struct Ctx<'a> {
     names: Names,
     base_path: PathBuf,
     comms: Vec<String>,
+    emitted: usize,
     _scratch: &'a cli::Scratch,
 }
 
-fn emit<'c>(cx: &mut Ctx, ledger: &mut report::query::Ledger<'c>, rctx: &report::ReportContext<'c>, t: &VE, tag: &str) {
+fn eval_obs<'c>(ledger: &mut report::query::Ledger<'c>, rctx: &report::ReportContext<'c>, text: &str, comms: &[String]) -> RObs {
+    let r = std::panic::catch_unwind(std::panic::AssertUnwindSafe(|| {
+        ledger.eval(
+            rctx,
+            text,
+            &report::query::EvalContext { date: chrono::NaiveDate::from_ymd_opt(2020, 1, 1).unwrap(), exchange: None },
+        )
+    }));
+    match r {
+        Err(_) => RObs::Panic,
+        Ok(Ok(a)) => RObs::Amt(amount_obs(&a, comms)),
+        Ok(Err(report::query::QueryError::EvalFailed(e))) => {
+            let d = format!("{:?}", e);
+            let name: String = d.chars().take_while(|c| c.is_alphanumeric()).collect();
+            RObs::Err(eval_code(&name))
+        }
+        Ok(Err(report::query::QueryError::ParseFailed(_))) => RObs::Err(50),
+        Ok(Err(_)) => RObs::Err(0),
+    }
+}
+
+/// okane primitive eval --date D -f FILE -- EXPR   (EvalCmd wraps the words in parentheses)
+fn cli_obs(path: &std::path::Path, text: &str, comms: &[String]) -> RObs {
+    let p = path.to_string_lossy().to_string();
+    let r = cli::run(&["primitive", "eval", "--date", "2020-01-01", "-f", &p, "--", text]);
+    if r.panicked {
+        RObs::Panic
+    } else if r.ok {
+        RObs::Amt(parse_inline(r.stdout.trim_end(), comms))
+    } else {
+        RObs::Err(cli_err_code(&r.stderr))
+    }
+}
+
+fn emit<'c>(
+    cx: &mut Ctx,
+    ledger: &mut report::query::Ledger<'c>,
+    rctx: &report::ReportContext<'c>,
+    fmt_bases: &mut [FmtBase<'c>],
+    forced_table: Option<usize>,
+    t: &VE,
+    tag: &str,
+) {
     let text = ve_text(t);
     if !cx.seen.insert(text.clone()) {
         return;
@@ -454,38 +519,15 @@ fn emit<'c>(cx: &mut Ctx, ledger: &mut report::query::Ledger<'c>, rctx: &report:
         }
     };
     let parsed = real_parse(&text);
-    // Ledger::eval
-    let ev = {
-        let r = std::panic::catch_unwind(std::panic::AssertUnwindSafe(|| {
-            ledger.eval(
-                rctx,
-                &text,
-                &report::query::EvalContext { date: chrono::NaiveDate::from_ymd_opt(2020, 1, 1).unwrap(), exchange: None },
-            )
-        }));
-        match r {
-            Err(_) => RObs::Panic,
-            Ok(Ok(a)) => RObs::Amt(amount_obs(&a, &cx.comms)),
-            Ok(Err(report::query::QueryError::EvalFailed(e))) => {
-                let d = format!("{:?}", e);
-                let name: String = d.chars().take_while(|c| c.is_alphanumeric()).collect();
-                RObs::Err(eval_code(&name))
-            }
-            Ok(Err(report::query::QueryError::ParseFailed(_))) => RObs::Err(50),
-            Ok(Err(_)) => RObs::Err(0),
-        }
-    };
-    // okane primitive eval --date D -f FILE -- EXPR   (EvalCmd wraps the words in parentheses)
-    let cl = {
-        let p = cx.base_path.to_string_lossy().to_string();
-        let r = cli::run(&["primitive", "eval", "--date", "2020-01-01", "-f", &p, "--", &text]);
-        if r.panicked {
-            RObs::Panic
-        } else if r.ok {
-            RObs::Amt(parse_inline(r.stdout.trim_end(), &cx.comms))
-        } else {
-            RObs::Err(cli_err_code(&r.stderr))
-        }
+    // Ledger::eval and the CLI on the ledger without declarations
+    let ev = eval_obs(ledger, rctx, &text, &cx.comms);
+    let cl = cli_obs(&cx.base_path, &text, &cx.comms);
+    // ... and on a ledger that declares display precisions
+    let table = forced_table.unwrap_or(TABLE_ROTATION[cx.emitted % TABLE_ROTATION.len()]) % FORMAT_TABLES.len();
+    cx.emitted += 1;
+    let (fev, fcl) = {
+        let fb = &mut fmt_bases[table];
+        (eval_obs(&mut fb.ledger, &fb.rctx, &text, &cx.comms), cli_obs(&fb.path, &text, &cx.comms))
     };
     let mut lobs = Vec::new();
     let mut ljson = serde_json::Map::new();
@@ -495,6 +537,26 @@ fn emit<'c>(cx: &mut Ctx, ledger: &mut report::query::Ledger<'c>, rctx: &report:
         cx.st.count(&format!("{}:{}", name, obs_kind(&o)));
         ljson.insert(name.to_string(), json!({"ledger": r.text, "impl": obs_json(&o)}));
         lobs.push(obs_term(&o));
+    }
+    // the same five ledgers after `commodity X / format ..` declarations
+    let mut flobs = Vec::new();
+    let mut fjson = serde_json::Map::new();
+    for (name, es) in position_ledgers(t) {
+        let mut all = format_entries(table);
+        all.extend(es);
+        let r = render(&all);
+        let o = run_process(&[("/main.ledger".to_string(), r.text.clone())], &cx.names, Some(&r));
+        cx.st.count(&format!("declared:{}:{}", name, obs_kind(&o)));
+        fjson.insert(name.to_string(), json!({"ledger": r.text, "impl": obs_json(&o)}));
+        flobs.push(obs_term(&o));
+    }
+    cx.st.count(&format!("declared_precision_table:{}", table));
+    // does some declared precision cut the exact result?  (the cases a rounding `eval` shows on)
+    if let RObs::Amt(a) = &ev {
+        let cut = a.iter().any(|(c, v)| FORMAT_TABLES[table].iter().any(|(fc, dp)| fc == c && v.normalize().scale() > *dp));
+        if cut {
+            cx.st.count("declared:eval_result_finer_than_declared_precision");
+        }
     }
     let nops = count_ops_ve(t);
     cx.st.eval(&text, nops >= 1);
@@ -518,20 +580,27 @@ fn emit<'c>(cx: &mut Ctx, ledger: &mut report::query::Ledger<'c>, rctx: &report:
         cx.st.count("shape:real_parser_differs");
     }
     let rep = json!({"property": "C08", "expr": text, "tree": serde_json::to_value(t).unwrap(),
+        "fmt_table": table,
         "impl": {"parsed_as": parsed.as_ref().map(|p| ve_text(p)), "ledger_eval": robs_json(&ev), "cli_eval": robs_json(&cl),
-                 "positions": ljson},
-        "reproduce": format!("okane primitive eval --date 2020-01-01 -f <ledger mentioning USD EUR AAPL> -- '{}'", text)});
+                 "positions": ljson,
+                 "declared_precisions": FORMAT_TABLES[table].iter().map(|(c, dp)| format!("{} {}", COMMODITIES[*c], dp)).collect::<Vec<_>>(),
+                 "declared_ledger_eval": robs_json(&fev), "declared_cli_eval": robs_json(&fcl), "declared_positions": fjson},
+        "reproduce": format!("okane primitive eval --date 2020-01-01 -f <ledger mentioning USD EUR AAPL, with and without `commodity X / format 1,000.00 X` declarations> -- '{}'", text)});
     if cx.st.samples.len() < 2 || (cx.st.samples.len() < 5 && nops >= 2 && matches!(ev, RObs::Err(_)) == (cx.st.samples.len() % 2 == 0)) {
         cx.st.sample(rep.clone(), 5);
     }
     let term = format!(
-        "C {} {} {} {} {} {}",
+        "CF {} {} {} {} {} {} {} {} {} {}",
         ve_term(t),
         coq::list(toks.iter().map(tok_term)),
         coq::opt(parsed.as_ref().map(ve_term)),
         robs_term(&ev),
         robs_term(&cl),
-        lobs.join(" ")
+        lobs.join(" "),
+        coq::list(FORMAT_TABLES[table].iter().map(|(c, dp)| format!("({}, {}%nat)", c, dp))),
+        robs_term(&fev),
+        robs_term(&fcl),
+        flobs.join(" ")
     );
     cx.sh.push(term, vec![rep]);
 }
@@ -600,9 +669,10 @@ pub fn run(o: &Opts) {
         comms: names.commodities.clone(),
         names,
         base_path,
+        emitted: 0,
         _scratch: &scratch,
     };
-    cx.st.rule = "expression trees generated along the grammar of parse/expr.rs (add over mul over unary over value; parentheses where the grammar needs them, plus redundant ones in the random stream) over six literals (number, zero, amount, zero amount, negative amount, second commodity); printed to text; the text is parsed by syntax::expr::ValueExpr::try_from (tree compared) and evaluated by Ledger::eval, `okane primitive eval`, and as posting amount, @ cost, {} lot price, balance assertion and balance assignment through report::process; non-trivial = at least one operator; distinct by expression text".into();
+    cx.st.rule = "expression trees generated along the grammar of parse/expr.rs (add over mul over unary over value; parentheses where the grammar needs them, plus redundant ones in the random stream) over six literals (number, zero, amount, zero amount, negative amount, second commodity); printed to text; the text is parsed by syntax::expr::ValueExpr::try_from (tree compared) and evaluated by Ledger::eval, `okane primitive eval`, and as posting amount, @ cost, {} lot price, balance assertion and balance assignment through report::process - all seven twice: on ledgers without declarations and on ledgers that declare display precisions (`commodity X` + `format`, four tables rotating, whole units most often), where the answers must be the same exact values; non-trivial = at least one operator; distinct by expression text".into();
     cx.st.assumptions.push("an inexact quotient (Decimal rounds to 28 digits) is only generated at the root of a tree, where it is compared up to 1e-18 relative; everywhere else values are compared exactly".into());
     cx.st.assumptions.push("literal mantissas below 10^7, at most 8 operators: no Decimal overflow".into());
     cx.st.assumptions.push("parentheses nested far less than the parser's MAX_EXPR_DEPTH = 100 and trees far lower than its MAX_EXPR_HEIGHT = 256, i.e. chains far shorter than 255 operators (the token-level model has neither bound)".into());
@@ -615,7 +685,20 @@ pub fn run(o: &Opts) {
     let loader = load::Loader::new(PathBuf::from("/main.ledger"), load::FakeFileSystem::from(map));
     let mut ledger = report::process(&mut rctx, loader, &report::ProcessOptions::default()).expect("base ledger");
 
-    // corpus / replay: {"tree": VE}
+    // ... and one per table of declared precisions
+    let mut fmt_bases: Vec<FmtBase> = Vec::new();
+    for k in 0..FORMAT_TABLES.len() {
+        let text = format!("{}{}", render(&format_entries(k)).text, BASE_LEDGER);
+        let path = scratch.write(&format!("base_fmt{}.ledger", k), &text);
+        let mut frctx = report::ReportContext::new(&arena);
+        let mut map: HashMap<PathBuf, Vec<u8>> = HashMap::new();
+        map.insert(PathBuf::from("/main.ledger"), text.as_bytes().to_vec());
+        let loader = load::Loader::new(PathBuf::from("/main.ledger"), load::FakeFileSystem::from(map));
+        let fledger = report::process(&mut frctx, loader, &report::ProcessOptions::default()).expect("base ledger with formats");
+        fmt_bases.push(FmtBase { ledger: fledger, rctx: frctx, path });
+    }
+
+    // corpus / replay: {"tree": VE, "fmt_table": k}
     let mut replay = false;
     let mut files: Vec<PathBuf> = Vec::new();
     if let Some(i) = o.extra.iter().position(|a| a == "--replay") {
@@ -631,7 +714,8 @@ pub fn run(o: &Opts) {
         if let Ok(text) = std::fs::read_to_string(&p) {
             if let Ok(v) = serde_json::from_str::<serde_json::Value>(&text) {
                 if let Some(t) = v.get("tree").and_then(|t| serde_json::from_value::<VE>(t.clone()).ok()) {
-                    emit(&mut cx, &mut ledger, &rctx, &t, "corpus");
+                    let k = v.get("fmt_table").and_then(|k| k.as_u64()).map(|k| k as usize);
+                    emit(&mut cx, &mut ledger, &rctx, &mut fmt_bases, k, &t, "corpus");
                 }
             }
         }
@@ -645,7 +729,7 @@ pub fn run(o: &Opts) {
         for k in 0..=kmax {
             for a in all_trees(k, &all6, &mut memo) {
                 if exactness(&a, &p6, true).is_some() {
-                    emit(&mut cx, &mut ledger, &rctx, &embed_top(&a, &p6), "exhaustive6");
+                    emit(&mut cx, &mut ledger, &rctx, &mut fmt_bases, None, &embed_top(&a, &p6), "exhaustive6");
                 }
             }
         }
@@ -654,7 +738,7 @@ pub fn run(o: &Opts) {
             let mut memo3 = HashMap::new();
             for a in all_trees(3, &[0, 2, 5], &mut memo3) {
                 if exactness(&a, &p6, true).is_some() {
-                    emit(&mut cx, &mut ledger, &rctx, &embed_top(&a, &p6), "exhaustive3lit");
+                    emit(&mut cx, &mut ledger, &rctx, &mut fmt_bases, None, &embed_top(&a, &p6), "exhaustive3lit");
                 }
             }
         }
@@ -665,7 +749,7 @@ pub fn run(o: &Opts) {
             let k = 2 + r.below(2) as usize;
             let a = if r.chance(1, 3) { random_tree(&mut r, k, 6) } else { let com = r.chance(3, 4); typed_tree(&mut r, k, com, &p6) };
             if exactness(&a, &p6, true).is_some() {
-                emit(&mut cx, &mut ledger, &rctx, &embed_top(&a, &p6), "random23");
+                emit(&mut cx, &mut ledger, &rctx, &mut fmt_bases, None, &embed_top(&a, &p6), "random23");
             } else {
                 cx.st.count("gen:skipped_inexact_inner_quotient");
             }
@@ -684,7 +768,7 @@ pub fn run(o: &Opts) {
                 VE::Paren(e) => VE::Paren(Box::new(sprinkle(&e, &mut r))),
                 x => x,
             };
-            emit(&mut cx, &mut ledger, &rctx, &t, "random_deep");
+            emit(&mut cx, &mut ledger, &rctx, &mut fmt_bases, None, &t, "random_deep");
         }
     }
     let Ctx { sh, st, .. } = cx;
